@@ -73,6 +73,9 @@ class GenState:
 
 
 def seg_len(st, name):
+    # the planned sequence (if any) and the planned length always agree
+    if name in st.seq:
+        st.slen[name] = len(st.seq[name])
     return st.slen.setdefault(name, 8)
 
 
@@ -378,7 +381,8 @@ def gen_history(r, version, opts=None):
             old = M.name_of(rec)
             st.model.rename(rec, new)
             if rec.rt == "S":
-                st.slen[new] = st.slen.get(old, 8)
+                st.seq.pop(new, None)  # a stale plan of an earlier segment of that name
+                st.slen[new] = seg_len(st, old)
                 if old in st.seq:
                     st.seq[new] = st.seq[old]
                 # overlap policies follow the name
